@@ -127,12 +127,43 @@ def run(prog: Program, res: Result, tier: str) -> None:
             if sorted(perm) == list(base) and perm not in set(
                     G.G["PlanarBond"]):
                 ok = True
+    located = ok
+    # the same choice written as two orderings: X if invert else Y (or the
+    # two arms of `if invert:` assigning the same name)
+    pairs = []
+    for n in ast.walk(fi.node):
+        if isinstance(n, ast.IfExp) and norm(n.test) in ("invert",
+                                                         "not invert"):
+            pairs.append((n.body, n.orelse))
+        elif isinstance(n, ast.If) and norm(n.test) in ("invert",
+                                                        "not invert") and \
+                len(n.body) == 1 and len(n.orelse) == 1 and all(
+                isinstance(x, ast.Assign) for x in (n.body[0], n.orelse[0])) \
+                and norm(n.body[0].targets[0]) == norm(n.orelse[0].targets[0]):
+            pairs.append((n.body[0].value, n.orelse[0].value))
+    for a_, b_ in pairs:
+        if isinstance(a_, ast.Tuple) and isinstance(b_, ast.Tuple) and \
+                len(a_.elts) == len(b_.elts) == 6:
+            ta, tb = [norm(x) for x in a_.elts], [norm(x) for x in b_.elts]
+            if sorted(ta) == sorted(tb) and len(set(ta)) == 6:
+                perm = tuple(tb.index(x) for x in ta)
+                located = True
+                if perm not in set(G.G["PlanarBond"]):
+                    ok = True
+    for s_ in swaps:
+        located = True
     zmap = [n for n in ast.walk(fi.node) if isinstance(n, ast.Dict)
             and any("STEREOZ" in norm(k) for k in n.keys)]
     zm = {norm(k).split(".")[-1]: norm(v) for d in zmap
           for k, v in zip(d.keys, d.values)}
     if ok and zm.get("STEREOZ") == "False" and zm.get("STEREOE") == "True":
         res.ok("T-TRANSVERSAL", inst, fi.loc())
+    elif not located and zm.get("STEREOZ") == "False" and \
+            zm.get("STEREOE") == "True":
+        res.unrecognised("T-TRANSVERSAL", inst, fi.loc(),
+                         "the re-ordering applied for STEREOE (`if invert:` "
+                         "re-indexing or a choice between two orderings) was "
+                         "not found")
     else:
         res.bad("T-TRANSVERSAL", "E/Z switch", fi.loc(),
                 f"{inst}: switch {zm}, swap is a non-symmetry: {ok}",
